@@ -331,6 +331,8 @@ PROPS = {
               dict(name="hw8", monitor="mon_glyph", flavour="plain", config="hw8", defs=["-DPIXMAN_VERIF_GLYPH_HIGH_WATER=8"], cases={"quick": 4000, "thorough": 400000}),
               dict(name="hw64", monitor="mon_glyph", flavour="plain", config="hw64", defs=["-DPIXMAN_VERIF_GLYPH_HIGH_WATER=64"], cases={"quick": 1500, "thorough": 100000}),
               dict(name="production-size", monitor="mon_glyph", flavour="plain", config="hw16384", cases={"quick": 640, "thorough": 20000}),
+              dict(name="hw4-all-histories-of-5", monitor="mon_glyph", flavour="plain", config="hw4-exhaustive5", defs=["-DPIXMAN_VERIF_GLYPH_HIGH_WATER=4"], cases={"quick": 14 ** 5, "thorough": 14 ** 5}, tiers=("quick",)),
+              dict(name="hw4-all-histories-of-7", monitor="mon_glyph", flavour="plain", config="hw4-exhaustive7", defs=["-DPIXMAN_VERIF_GLYPH_HIGH_WATER=4"], cases={"quick": 14 ** 7, "thorough": 14 ** 7}, tiers=("thorough",)),
               dict(name="hw4-asan", monitor="mon_glyph", flavour="asan", config="hw4", defs=["-DPIXMAN_VERIF_GLYPH_HIGH_WATER=4"], cases={"quick": 1500, "thorough": 100000}),
               dict(name="production-size-asan", monitor="mon_glyph", flavour="asan", config="hw16384", cases={"quick": 128, "thorough": 4000})],
         rule="one case = a 200-step history of freeze / thaw / lookup / insert (lookup first, as clients do) / remove / draw over a key pool about 3x the high-water mark, on library builds whose glyph table is shrunk "
@@ -339,6 +341,8 @@ PROPS = {
              "(or none when more than high-water tombstones can exist); a probe sequence longer than the table is reported by the library hook; drawing: composite_glyphs_no_mask vs one composite32 per glyph from the monitor's copies, "
              "composite_glyphs vs ADD-accumulating the copies into a mask of the requested format and compositing it (14 operators, a1/a4/a8/8888/565 glyphs mixed, clips, positions partly outside); evaluations = lookups + pixels compared; a cell = history by hash / draw class",
         floors={"any": {"lookups": 200000, "inserts": 50000, "removes": 20000, "thaws_with_eviction": 500, "inserts_refused": 20, "draws_with_mask": 3000, "draws_no_mask": 3000, "labels:draw_op_maskfmt": 50}},
+        exhaustive={"quick": True, "thorough": True},
+        exhaustive_note="exhaustive only for the small scope: every history of exactly 5 (quick) / 7 (thorough) symbols over {freeze, thaw, use(k), remove(k); k in 6 colliding keys} on an 8-slot table (high water 4) that starts frozen; everything else is random exploration",
         assumptions=["the monitor cannot see tombstones: it uses the number of removals as their upper bound", "table-size override is the PIXMAN_VERIF hook H1 (add-only)"],
     ),
 }
